@@ -10,6 +10,7 @@ CONSTANTS
   MaxHist = @@MAXHIST@@
   Shapes = @@SHAPES@@
   FixSets = {@@FIXES@@}
+  Causes = {"peer", "cmd", "sweep", "kick"}
   Emit = TRUE
   Only = "@@ONLY@@"
 INIT Init
